@@ -4,7 +4,9 @@
 // stdin : one case per line   "<mode> <macro> <macro> ... | <gap>:<sig> <gap>:<sig> ..."
 //           mode  : (bsd | sysv)[/(file|pipe|null|closed|full|ro)]   semantics given to signal(2) by the interposed
 //                   ::signal below, and what fd 1 is while the program runs (default file; closed/full/ro make
-//                   write(1, ...) fail; observations never travel through fd 1 but through a status pipe)
+//                   write(1, ...) fail; observations never travel through fd 1 but through a status pipe);
+//                   a third component /ign (after an explicit stdout state) starts the program with SIGINT and
+//                   SIGTERM inherited as ignored (state flags I2/T2) instead of the default action
 //           macro : C               new SignalHandler(solver)
 //                   R:<h>:<d>       solver.interrupter()->SetHandler(cb_h, &data_d)   (h = 0: null callback, d = 0: null data)
 //                   W               opaque solve/report step; queries solver.interrupter()->Stop()
@@ -131,8 +133,8 @@ static std::string state() {
   const char *ik = (g_sh && it == static_cast<mp::Interrupter *>(g_sh)) ? "O" : it == g_self ? "S" : "X";
   struct sigaction a;
   int di, dt;
-  sigaction(SIGINT, 0, &a);  di = a.sa_handler == Stash<FnTag>::value ? 1 : a.sa_handler == SIG_DFL ? 0 : 9;
-  sigaction(SIGTERM, 0, &a); dt = a.sa_handler == Stash<FnTag>::value ? 1 : a.sa_handler == SIG_DFL ? 0 : 9;
+  sigaction(SIGINT, 0, &a);  di = a.sa_handler == Stash<FnTag>::value ? 1 : a.sa_handler == SIG_DFL ? 0 : a.sa_handler == SIG_IGN ? 2 : 9;
+  sigaction(SIGTERM, 0, &a); dt = a.sa_handler == Stash<FnTag>::value ? 1 : a.sa_handler == SIG_DFL ? 0 : a.sa_handler == SIG_IGN ? 2 : 9;
   snprintf(buf, sizeof buf, "[s%d,h%d,d%d,p%s,z%u,i%s,I%d,T%d]", (int)*Stash<StopTag>::value,
            handler_id(*Stash<HandlerTag>::value), data_id(*Stash<DataTag>::value), pk,
            (unsigned)*Stash<SizeTag>::value, ik, di, dt);
@@ -295,12 +297,15 @@ int main(int argc, char **argv) {
     std::vector<std::string> prog;
     std::vector<Sched> sched;
     std::string outs = "file";
+    std::string inh = "dfl";
     { size_t sl = mode.find('/'); if (sl != std::string::npos) { outs = mode.substr(sl + 1); mode = mode.substr(0, sl); } }
+    { size_t sl = outs.find('/'); if (sl != std::string::npos) { inh = outs.substr(sl + 1); outs = outs.substr(0, sl); } }
     bool bad = (mode != "bsd" && mode != "sysv"), insched = false;
     OutKind ok = OUT_FILE;
     if (outs == "file") ok = OUT_FILE; else if (outs == "pipe") ok = OUT_PIPE; else if (outs == "null") ok = OUT_NULL;
     else if (outs == "closed") ok = OUT_CLOSED; else if (outs == "full") ok = OUT_FULL; else if (outs == "ro") ok = OUT_RO;
     else bad = true;
+    if (inh != "dfl" && inh != "ign") bad = true;
     for (size_t k = 1; k < toks.size() && !bad; ++k) {
       if (toks[k] == "|") { insched = true; continue; }
       if (!insched) prog.push_back(toks[k]);
@@ -356,6 +361,13 @@ int main(int argc, char **argv) {
       case OUT_RO: { int fd = open("/dev/null", O_RDONLY); if (fd < 0) _exit(92); dup2(fd, 1); close(fd); break; }
       }
       g_sched = sched;
+      if (inh == "ign") {      // the process was started with SIGINT/SIGTERM ignored (background job of a non-interactive shell)
+        struct sigaction sa;
+        memset(&sa, 0, sizeof sa);
+        sa.sa_handler = SIG_IGN;
+        sigaction(SIGINT, &sa, 0);
+        sigaction(SIGTERM, &sa, 0);
+      }
       // restore default dispositions (the parent has none installed, but be explicit)
       run_child(mode, prog);
       _exit(93);
